@@ -6,7 +6,7 @@ KINDS = ["NewGrp", "Sub", "Leave", "SetSelf", "SetOther", "Pub", "Unload", "Relo
 
 def run(ctx):
     return tc.run_topic_check(
-        ctx, "C01", kinds=KINDS, maxseq=6, sess_per_user=2, nusers=2,
+        ctx, "C01", kinds=KINDS, maxseq=6, sess_per_user=2, nusers=2, p2p=True, root=True,
         want=["-", "JRW", "JW"], given=["-", "JRW", "JRWPAS"],
         u1_quick={"want": ["-", "JRW"], "given": ["-", "JRW"], "kinds": ["NewGrp", "Sub", "Leave", "Pub", "Unload"], "maxseq": 3, "nusers": 2},
         u1_thorough={"want": ["-", "JRW", "JW"], "given": ["-", "JRW"], "kinds": KINDS, "maxseq": 3, "nusers": 2},
